@@ -128,13 +128,71 @@ pub open spec fn n1_frame_unterminated(inp: Seq<u8>, out: Seq<u8>, o: int) -> bo
     &&& out[o] == 0x20u8 && out[o + 1] == 0x20u8
 }
 
-/// `Option::filter` — std doc: "Returns None if the option is None, otherwise calls predicate with the
-/// wrapped value and returns Some(t) if predicate returns true, None if predicate returns false."
-pub assume_specification<T, P: FnOnce(&T) -> bool>[ Option::<T>::filter ](o: Option<T>, p: P) -> (r: Option<T>)
-    requires o matches Some(x) ==> call_requires(p, (&x,)),
+/// the first / last occurrence is unique (proved)
+pub proof fn lemma_first_is_unique(b: Seq<u8>, o: int, pat: Seq<u8>)
+    requires first_occ(b, o, pat)
+    ensures forall|o2: int| #[trigger] first_occ(b, o2, pat) ==> o2 == o
+{
+    assert forall|o2: int| #[trigger] first_occ(b, o2, pat) implies o2 == o by {
+        if o2 < o { assert(occurs_at(b, o2, pat)); }
+        if o < o2 { assert(occurs_at(b, o, pat)); }
+    }
+}
+pub proof fn lemma_last_is_unique(b: Seq<u8>, c: int, pat: Seq<u8>)
+    requires last_occ(b, c, pat)
+    ensures forall|c2: int| #[trigger] last_occ(b, c2, pat) ==> c2 == c
+{
+    assert forall|c2: int| #[trigger] last_occ(b, c2, pat) implies c2 == c by {
+        if c2 < c { assert(occurs_at(b, c, pat)); }
+        if c < c2 { assert(occurs_at(b, c2, pat)); }
+    }
+}
+
+/// the pushed pieces, put together, satisfy the frame (proved; split off N1 to keep it well below the
+/// solver's resource limit)
+pub proof fn lemma_n1_frame(b: Seq<u8>, out: Seq<u8>, o: int, c: int, mid: Seq<u8>)
+    requires
+        0 <= o && o + 2 <= c && c + 2 <= b.len(),
+        occurs_at(b, o, b_open()) && occurs_at(b, c, b_close()),
+        only_stars_blanked(b.subrange(o + 2, c), mid),
+        out == b.subrange(0, o) + sp(2) + mid + sp(2) + b.subrange(c + 2, b.len() as int),
     ensures
-        o is None ==> r is None,
-        o matches Some(x) ==> (exists|b: bool| #[trigger] call_ensures(p, (&x,), b) && r == (if b { Some(x) } else { None::<T> }));
+        n1_frame(b, out, o, c),
+{
+    assert(out.len() == b.len());
+    assert(b.subrange(o, o + 2)[0] == b[o] && b.subrange(o, o + 2)[1] == b[o + 1]);
+    assert(b.subrange(c, c + 2)[0] == b[c] && b.subrange(c, c + 2)[1] == b[c + 1]);
+    assert forall|i: int| 0 <= i < b.len() implies
+        (if i == o || i == o + 1 || i == c || i == c + 1 { #[trigger] out[i] == 0x20u8 }
+         else { out[i] == b[i] || (o + 2 <= i < c && b[i] == 0x2au8 && out[i] == 0x20u8) }) by {
+        if i < o { assert(out[i] == b.subrange(0, o)[i]); }
+        else if i < o + 2 { assert(out[i] == sp(2)[i - o]); }
+        else if i < c { assert(out[i] == mid[i - (o + 2)]); assert(b.subrange(o + 2, c)[i - (o + 2)] == b[i]); }
+        else if i < c + 2 { assert(out[i] == sp(2)[i - c]); }
+        else { assert(out[i] == b.subrange(c + 2, b.len() as int)[i - (c + 2)]); }
+    }
+}
+
+pub proof fn lemma_n1_frame_unterminated(b: Seq<u8>, out: Seq<u8>, o: int, mid: Seq<u8>)
+    requires
+        0 <= o && o + 2 <= b.len(),
+        occurs_at(b, o, b_open()),
+        only_stars_blanked(b.subrange(o + 2, b.len() as int), mid),
+        out == b.subrange(0, o) + sp(2) + mid,
+    ensures
+        n1_frame_unterminated(b, out, o),
+        same_len_and_newlines(b, out),
+{
+    assert(out.len() == b.len());
+    assert(b.subrange(o, o + 2)[0] == b[o] && b.subrange(o, o + 2)[1] == b[o + 1]);
+    assert forall|i: int| 0 <= i < b.len() implies
+        (if i == o || i == o + 1 { #[trigger] out[i] == 0x20u8 }
+         else { out[i] == b[i] || (o + 2 <= i && b[i] == 0x2au8 && out[i] == 0x20u8) }) by {
+        if i < o { assert(out[i] == b.subrange(0, o)[i]); }
+        else if i < o + 2 { assert(out[i] == sp(2)[i - o]); }
+        else { assert(out[i] == mid[i - (o + 2)]); assert(b.subrange(o + 2, b.len() as int)[i - (o + 2)] == b[i]); }
+    }
+}
 
 // N1 has NO precondition on the comment text (C04: for ANY text it terminates without panic).
 //@unit id=N1 file=src/language_parsers/mod.rs fn=c_style_multiline_comment_processor ret=r
@@ -216,50 +274,19 @@ pub assume_specification<T, P: FnOnce(&T) -> bool>[ Option::<T>::filter ](o: Opt
         lemma_norm_flat(lines, n);
         let mid = norm_flat(lines, n);
         assert(flat_bytes(lines, n) == bc.subrange(o + 2, end)); // [N1.proof.lines_are_the_content_between_the_delimiters]
-        assert(bc.subrange(o, o + 2)[0] == bc[o] && bc.subrange(o, o + 2)[1] == bc[o + 1]);
-        // the first "/*" is unique
-        assert forall|o2: int| #![trigger first_occ(bc, o2, b_open())] first_occ(bc, o2, b_open()) implies o2 == o by {
-            if o2 < o { assert(occurs_at(bc, o2, b_open())); }
-            if o < o2 { assert(occurs_at(bc, o, b_open())); }
-        }
-        assert(occurs_at(bc, o, b_open()));
+        lemma_first_is_unique(bc, o, b_open());
         match close_idx {
             Some(cu) => {
                 let c = cu as int;
                 assert(out == bc.subrange(0, o) + sp(2) + mid + sp(2) + bc.subrange(c + 2, bc.len() as int)); // [N1.proof.result_is_text_with_delimiters_blanked]
                 assert(out == n1_result(comment@, o, c));
-                assert(out.len() == bc.len());
-                assert forall|i: int| 0 <= i < bc.len() && i != o && i != o + 1 && i != c && i != c + 1 implies
-                    #[trigger] out[i] == bc[i] || (o + 2 <= i < c && bc[i] == 0x2au8 && out[i] == 0x20u8) by {
-                    if o + 2 <= i < c {
-                        assert(out[i] == mid[i - (o + 2)]);
-                        assert(bc.subrange(o + 2, c)[i - (o + 2)] == bc[i]);
-                    }
-                }
-                assert(bc.subrange(c, c + 2)[0] == bc[c] && bc.subrange(c, c + 2)[1] == bc[c + 1]);
-                assert(n1_frame(bc, out, o, c));
-                assert forall|c2: int| #[trigger] last_occ(bc, c2, b_close()) implies c2 == c by {
-                    if c2 < c { assert(occurs_at(bc, c, b_close())); }
-                    if c < c2 { assert(occurs_at(bc, c2, b_close())); }
-                }
-                assert(last_occ(bc, c, b_close()));
+                lemma_n1_frame(bc, out, o, c, mid);
+                lemma_last_is_unique(bc, c, b_close());
             },
             None => {
                 assert(out == bc.subrange(0, o) + sp(2) + mid); // [N1.proof.result_is_text_with_open_delimiter_blanked]
                 assert(out == n1_result_unterminated(comment@, o));
-                assert(out.len() == bc.len());
-                assert forall|i: int| 0 <= i < bc.len() && i != o && i != o + 1 implies
-                    #[trigger] out[i] == bc[i] || (o + 2 <= i && bc[i] == 0x2au8 && out[i] == 0x20u8) by {
-                    if o + 2 <= i {
-                        assert(out[i] == mid[i - (o + 2)]);
-                        assert(bc.subrange(o + 2, bc.len() as int)[i - (o + 2)] == bc[i]);
-                    }
-                }
-                assert(n1_frame_unterminated(bc, out, o));
-                assert forall|c2: int| #[trigger] last_occ(bc, c2, b_close()) implies c2 < o + 2 by {}
-                assert forall|i: int| 0 <= i < bc.len() implies (#[trigger] out[i] == 0x0au8) == (bc[i] == 0x0au8) by {
-                    if o + 2 <= i { assert(out[i] == bc[i] || (bc[i] == 0x2au8 && out[i] == 0x20u8)); }
-                }
+                lemma_n1_frame_unterminated(bc, out, o, mid);
             },
         }
     }
@@ -442,6 +469,30 @@ pub open spec fn n5_frame(inp: Seq<u8>, out: Seq<u8>, o: int, c: int) -> bool {
     &&& forall|i: int| 0 <= i < inp.len() ==> #[trigger] out[i] == (if o <= i < o + 4 || c <= i < c + 3 { 0x20u8 } else { inp[i] })
 }
 
+/// the pushed pieces, put together, satisfy the frame (proved; split off N5 to keep it below the resource limit)
+pub proof fn lemma_n5_frame(b: Seq<u8>, out: Seq<u8>, o: int, c: int)
+    requires
+        0 <= o && o + 4 <= c && c + 3 <= b.len(),
+        occurs_at(b, o, b_xml_open()) && occurs_at(b, c, b_xml_close()),
+        out == b.subrange(0, o) + sp(4) + b.subrange(o + 4, c) + sp(3) + b.subrange(c + 3, b.len() as int),
+    ensures
+        n5_frame(b, out, o, c),
+        same_len_and_newlines(b, out),
+{
+    assert(out.len() == b.len());
+    assert forall|i: int| 0 <= i < b.len() implies #[trigger] out[i] == (if o <= i < o + 4 || c <= i < c + 3 { 0x20u8 } else { b[i] }) by {
+        if i < o { assert(out[i] == b.subrange(0, o)[i]); }
+        else if i < o + 4 { assert(out[i] == sp(4)[i - o]); }
+        else if i < c { assert(out[i] == b.subrange(o + 4, c)[i - (o + 4)]); }
+        else if i < c + 3 { assert(out[i] == sp(3)[i - c]); }
+        else { assert(out[i] == b.subrange(c + 3, b.len() as int)[i - (c + 3)]); }
+    }
+    assert forall|i: int| 0 <= i < b.len() implies (#[trigger] out[i] == 0x0au8) == (b[i] == 0x0au8) by {
+        if o <= i < o + 4 { assert(b[i] == b.subrange(o, o + 4)[i - o] && b[i] == b_xml_open()[i - o]); }
+        if c <= i < c + 3 { assert(b[i] == b.subrange(c, c + 3)[i - c] && b[i] == b_xml_close()[i - c]); }
+    }
+}
+
 //@unit id=N5 file=src/language_parsers/mod.rs fn=xml_style_comments_parser slice_from=<<let open_idx = comment.find("<!--")>> slice_until=<<Some(result)>>
 //@wrapper
 fn n5_xml_comment_text(comment: &str) -> (r: String)
@@ -460,18 +511,9 @@ fn n5_xml_comment_text(comment: &str) -> (r: String)
         let c = close_idx as int;
         let out = utf8(result@);
         assert(out == bc.subrange(0, o) + sp(4) + bc.subrange(o + 4, c) + sp(3) + bc.subrange(c + 3, bc.len() as int)); // [N5.proof.result_is_text_with_delimiters_blanked]
-        assert(n5_frame(bc, out, o, c));
-        assert forall|i: int| 0 <= i < bc.len() implies (#[trigger] out[i] == 0x0au8) == (bc[i] == 0x0au8) by {
-            if o <= i < o + 4 { assert(bc[i] == b_xml_open()[i - o]); }
-            if c <= i < c + 3 { assert(bc[i] == b_xml_close()[i - c]); }
-        }
-        assert forall|o2: int, c2: int| #![trigger first_occ(bc, o2, b_xml_open()), last_occ(bc, c2, b_xml_close())]
-            first_occ(bc, o2, b_xml_open()) && last_occ(bc, c2, b_xml_close()) implies o2 == o && c2 == c by {
-            if o2 < o { assert(occurs_at(bc, o2, b_xml_open())); }
-            if o < o2 { assert(occurs_at(bc, o, b_xml_open())); }
-            if c2 < c { assert(occurs_at(bc, c, b_xml_close())); }
-            if c < c2 { assert(occurs_at(bc, c2, b_xml_close())); }
-        }
+        lemma_n5_frame(bc, out, o, c);
+        lemma_first_is_unique(bc, o, b_xml_open());
+        lemma_last_is_unique(bc, c, b_xml_close());
     }
     result
 //@edit rule=ghost before=<<let open_idx>>
@@ -494,6 +536,208 @@ fn n5_xml_comment_text(comment: &str) -> (r: String)
 //@chain rule=E13 find=<<.find(>> to=verif_find_str argkind=str count=all optional=1
 //@chain rule=E13 find=<<.rfind(>> to=verif_rfind_str argkind=str count=all optional=1
 //@strslice rule=E13 from=verif_str_from to=verif_str_to range=verif_str_range
+//@end
+
+
+// ---------------------------------------------------------------------------------------------
+// N6 — Markdown link-reference comments `[//]: # (text)` (src/language_parsers/markdown.rs, the closure of
+// `markdown_comments_parser`). The unit is the closure body after the node-kind test; its only input
+// is the node's source text. NO precondition on that text (C04): for ANY text the body terminates
+// without panic — it returns `None` (not a comment) or the normalised text.
+
+pub open spec fn b_md_prefix() -> Seq<u8> { seq![0x5bu8, 0x2fu8, 0x2fu8, 0x5du8, 0x3au8] } // "[//]:"
+
+/// the predicate of the real closure `|c| ['(', '"', '\''].contains(&c)`
+pub open spec fn md_delim() -> spec_fn(char) -> bool { |c: char| ['(', '"', '\'']@.contains(c) }
+
+pub proof fn lemma_md_delim(c: char)
+    ensures md_delim()(c) == (c == '(' || c == '"' || c == '\'')
+{
+    let a = ['(', '"', '\''];
+    assert(a@.len() == 3 && a@[0] == '(' && a@[1] == '"' && a@[2] == '\'');
+    if a@.contains(c) { let i = choose|i: int| 0 <= i < a@.len() && a@[i] == c; }
+}
+
+/// the closing delimiter that belongs to an opening delimiter byte: `(`..`)`, `"`..`"`, `'`..`'`
+pub open spec fn md_close_byte(open: u8) -> u8 { if open == 0x28u8 { 0x29u8 } else { open } }
+
+/// `p`: first "[//]:"; `o`: the first `(`, `"` or `'` after it (std `find` with the closure's
+/// predicate on the text after the prefix); `c`: the LAST occurrence of the matching closing byte, after `o`.
+pub open spec fn md_parts(t: Seq<char>, p: int, o: int, c: int) -> bool {
+    let b = utf8(t);
+    &&& first_occ(b, p, b_md_prefix())
+    &&& p + 5 <= o < c < b.len()
+    &&& find_pred_spec(decode_utf8(b.subrange(p + 5, b.len() as int)), md_delim()) == Some((o - (p + 5)) as usize)
+    &&& (b[o] == 0x28u8 || b[o] == 0x22u8 || b[o] == 0x27u8)
+    &&& b[c] == md_close_byte(b[o])
+    &&& forall|q: int| c < q < b.len() ==> #[trigger] b[q] != md_close_byte(b[o])
+}
+
+/// text before "[//]:" unchanged; "[//]:" up to and including the opening delimiter blanked; the
+/// text strictly between the delimiters unchanged (the tag "as written"); closing delimiter
+/// blanked; text after it unchanged.
+pub open spec fn n6_frame(inp: Seq<u8>, out: Seq<u8>, p: int, o: int, c: int) -> bool {
+    &&& out.len() == inp.len()
+    &&& forall|i: int| 0 <= i < inp.len() ==> #[trigger] out[i] == (if p <= i <= o || i == c { 0x20u8 } else { inp[i] })
+}
+
+/// carve-out of KF-N6: the title's opening delimiter is on the line of `[//]:`
+pub open spec fn no_newline_before_title(b: Seq<u8>, p: int, o: int) -> bool {
+    forall|i: int| p + 5 <= i < o ==> #[trigger] b[i] != 0x0au8
+}
+
+proof fn lemma_md_literals()
+    ensures utf8("[//]:"@) == b_md_prefix(), utf8("     "@) == sp(5), utf8(" "@) == sp(1),
+{
+    reveal_strlit("[//]:"); reveal_strlit("     "); reveal_strlit(" ");
+    assert("[//]:"@ =~= seq!['[', '/'] + seq!['/', ']'] + seq![':']);
+    assert("     "@ =~= seq![' ', ' '] + seq![' ', ' '] + seq![' ']);
+    assert(" "@ =~= seq![' ']);
+    lemma_utf8_two('[', '/'); lemma_utf8_two('/', ']'); lemma_utf8_one(':'); lemma_utf8_two(' ', ' '); lemma_utf8_one(' ');
+    assert(utf8("[//]:"@) =~= b_md_prefix());
+    assert(utf8("     "@) =~= sp(5));
+    assert(utf8(" "@) =~= sp(1));
+}
+
+/// the pushed pieces, put together, are the text with prefix and delimiters blanked (proved)
+proof fn lemma_n6_result(b: Seq<u8>, out: Seq<u8>, p: int, o: int, c: int, fill: Seq<u8>)
+    requires
+        0 <= p && p + 5 <= o < c < b.len(),
+        fill.len() == o - (p + 5) + 1,
+        forall|k: int| 0 <= k < fill.len() ==> #[trigger] fill[k] == 0x20u8,
+        b.subrange(p, p + 5) == b_md_prefix(),
+        b[o] != 0x0au8 && b[c] != 0x0au8,
+        out == b.subrange(0, p) + sp(5) + fill + b.subrange(o + 1, c) + seq![0x20u8]
+            + (if c + 1 < b.len() { b.subrange(c + 1, b.len() as int) } else { Seq::<u8>::empty() }),
+    ensures
+        n6_frame(b, out, p, o, c),
+        no_newline_before_title(b, p, o) ==> same_len_and_newlines(b, out),
+{
+    assert(out.len() == b.len());
+    assert forall|i: int| 0 <= i < b.len() implies #[trigger] out[i] == (if p <= i <= o || i == c { 0x20u8 } else { b[i] }) by {
+        if i < p { assert(out[i] == b.subrange(0, p)[i]); }
+        else if i < p + 5 { assert(out[i] == sp(5)[i - p]); }
+        else if i <= o { assert(out[i] == fill[i - (p + 5)]); }
+        else if i < c { assert(out[i] == b.subrange(o + 1, c)[i - (o + 1)]); }
+        else if i == c { }
+        else { assert(out[i] == b.subrange(c + 1, b.len() as int)[i - (c + 1)]); }
+    }
+    if no_newline_before_title(b, p, o) {
+        assert forall|i: int| 0 <= i < b.len() implies (#[trigger] out[i] == 0x0au8) == (b[i] == 0x0au8) by {
+            if p <= i < p + 5 { assert(b[i] == b.subrange(p, p + 5)[i - p] && b[i] == b_md_prefix()[i - p]); }
+        }
+    }
+}
+
+//@unit id=N6 file=src/language_parsers/markdown.rs fn=markdown_comments_parser slice_from=<<let comment = &source_code[node.byte_range()];>> slice_until=<<Some(result)>>
+//@wrapper
+fn n6_markdown_comment_text(verif_comment_text: &str) -> (r: Option<String>)
+    ensures
+        r matches Some(s) ==> utf8(s@).len() == utf8(verif_comment_text@).len(), // [N6.post.same_byte_length]
+        r matches Some(s) ==> exists|p: int, o: int, c: int| #[trigger] md_parts(verif_comment_text@, p, o, c) // [N6.post.content_between_delimiters_unchanged]
+            && n6_frame(utf8(verif_comment_text@), utf8(s@), p, o, c),
+        // KNOWN FINDING KF-N6 (see normalise.notes.md, group normalise_kf): the uncarved clause "every '\n' stays
+        // at its offset" FAILS on the real code - a line break between `[//]:` and the title's opening
+        // delimiter is blanked. Proved here under the carve-out "no '\n' between the prefix and the delimiter".
+        r matches Some(s) ==> exists|p: int, o: int, c: int| #[trigger] md_parts(verif_comment_text@, p, o, c) // [N6.post.newlines_stay_in_place_carved]
+            && (no_newline_before_title(utf8(verif_comment_text@), p, o) ==> same_len_and_newlines(utf8(verif_comment_text@), utf8(s@))),
+//@tail
+    proof {
+        let p = prefix_idx as int;
+        let o = open_idx as int;
+        let c = close_idx as int;
+        let out = utf8(result@);
+        let rest = if c + 1 < bc.len() { bc.subrange(c + 1, bc.len() as int) } else { Seq::<u8>::empty() };
+        assert(out == bc.subrange(0, p) + sp(5) + verif_fill + bc.subrange(o + 1, c) + seq![0x20u8] + rest); // [N6.proof.result_is_text_with_prefix_and_delimiters_blanked]
+        assert(bc.subrange(p, p + 5) == b_md_prefix());
+        lemma_n6_result(bc, out, p, o, c, verif_fill);
+        assert(md_parts(comment@, p, o, c)); // [N6.proof.delimiters_are_as_specified]
+    }
+    Some(result)
+//@edit rule=SLICE find=<<&source_code[node.byte_range()]>>
+verif_comment_text
+//@edit rule=ghost before=<<let prefix_idx>>
+    proof { lemma_md_literals(); }
+    let ghost bc = utf8(comment@);
+//@edit rule=ghost before=<<let start_search>>
+    proof {
+        assert(bc.len() == comment.spec_bytes().len() <= isize::MAX); // a str is at most isize::MAX bytes long
+        assert(first_occ(bc, prefix_idx as int, b_md_prefix())); // [N6.proof.prefix_idx_is_first_prefix]
+        assert(bc.subrange(prefix_idx as int, prefix_idx + 5)[4] == 0x3au8);
+        lemma_after_ascii_is_boundary(comment@, prefix_idx + 4);
+    }
+//@edit rule=ghost before=<<let open_idx>>
+    let ghost t2 = decode_utf8(bc.subrange(start_search as int, bc.len() as int));
+    proof {
+        // any str whose bytes are bc[start_search..] has the text t2
+        assert forall|v: Seq<char>| #[trigger] utf8(v) == bc.subrange(start_search as int, bc.len() as int) implies v == t2 by {
+            encode_utf8_decode_utf8(v);
+        }
+    }
+//@edit rule=ghost before=<<let open_char>>
+    let ghost t3 = decode_utf8(bc.subrange(open_idx as int, bc.len() as int));
+    proof {
+        let bx = bc.subrange(start_search as int, bc.len() as int);
+        let i = open_idx - start_search;
+        assert(bx[i] == bc[open_idx as int]);
+        assert(byte_boundary(bc, open_idx as int));
+        assert(bx.subrange(i, bx.len() as int) =~= bc.subrange(open_idx as int, bc.len() as int));
+        assert(t3.len() > 0 && md_delim()(t3[0]));
+        lemma_md_delim(t3[0]);
+        assert(find_pred_spec(t2, md_delim()) == Some(i as usize)); // [N6.proof.open_idx_is_first_delimiter_after_prefix]
+        // any str whose bytes are bc[open_idx..] has the text t3
+        assert forall|v: Seq<char>| #[trigger] utf8(v) == bc.subrange(open_idx as int, bc.len() as int) implies v == t3 by {
+            encode_utf8_decode_utf8(v);
+        }
+    }
+//@edit rule=ghost before=<<let close_idx>>
+    proof {
+        assert(open_char == t3[0]); // [N6.proof.open_char_is_the_delimiter_found]
+        let v = choose|v: Seq<char>| #[trigger] utf8(v) == bc.subrange(open_idx as int, bc.len() as int);
+        assert(v == t3);
+        lemma_first_char_ascii(t3);
+        assert(bc.subrange(open_idx as int, bc.len() as int)[0] == bc[open_idx as int]);
+        assert(bc[open_idx as int] == open_char as u8);
+        assert(close_char as u8 == md_close_byte(bc[open_idx as int]));
+        assert(bc[open_idx as int] == 0x28u8 || bc[open_idx as int] == 0x22u8 || bc[open_idx as int] == 0x27u8);
+    }
+//@edit rule=ghost before=<<let mut result>>
+    proof {
+        lemma_after_ascii_is_boundary(comment@, open_idx as int);
+        lemma_after_ascii_is_boundary(comment@, close_idx as int);
+    }
+//@edit rule=ghost before=<<result.push_str(" ".repeat(>>
+    let ghost verif_n = open_idx - (prefix_idx + 5) + 1;
+    let ghost verif_r0 = utf8(result@);
+    proof {
+        assert(utf8(" "@).len() == 1);
+        assert(utf8(" "@).len() * verif_n == verif_n) by (nonlinear_arith) requires utf8(" "@).len() == 1;
+        assert(verif_r0 =~= bc.subrange(0, prefix_idx as int) + sp(5));
+    }
+//@edit rule=ghost before=<<result.push_str(&comment[open_idx + 1..>>
+    let ghost verif_fill = utf8(result@).subrange(prefix_idx + 5, utf8(result@).len() as int);
+    proof {
+        assert(utf8(result@).len() == verif_r0.len() + verif_n);
+        assert(verif_fill.len() == verif_n);
+        assert forall|k: int| 0 <= k < verif_fill.len() implies #[trigger] verif_fill[k] == 0x20u8 by {
+            assert(k % 1 == 0);
+        }
+        assert(utf8(result@) =~= bc.subrange(0, prefix_idx as int) + sp(5) + verif_fill);
+    }
+//@closure rule=E12 find=<<|c|>> params=<<|c: char|>> ret=<<b: bool>>
+            ensures b == md_delim()(c), // [N6.closure.is_opening_delimiter]
+//@closure rule=E12 find=<<|i|>> params=<<|i: usize|>> ret=<<j: usize>>
+            requires i + start_search <= usize::MAX,
+            ensures j == i + start_search, // [N6.closure.offset_in_comment]
+//@closure rule=E12 find=<<|close_idx|>> params=<<|close_idx: &usize|>> ret=<<b: bool>> optional=1
+            ensures b == (*close_idx > open_idx), // [N6.closure.close_after_open]
+//@chain rule=E13 find=<<.contains(>> to=verif_chars_contains count=all optional=1
+//@chain rule=E13 find=<<.chars().next()>> to=verif_first_char count=all optional=1
+//@chain rule=E13 find=<<.chars().nth(>> to=verif_chars_nth count=all optional=1
+//@chain rule=E13 find=<<.find(>> to=verif_find_str argkind=str count=all optional=1
+//@chain rule=E13 find=<<.rfind(>> to=verif_rfind_ascii_char argkind=other count=all optional=1
+//@strslice rule=E13 from=verif_str_from to=verif_str_to range=verif_str_range
+//@chain rule=E13 find=<<.find(>> to=verif_find_pred argkind=other count=all extra=<<Ghost(md_delim())>>
 //@end
 
 } // verus!
